@@ -1,7 +1,12 @@
 #!/bin/sh
-# offline build of the whole framework: Coq development (full .vo), extracted model runners
-set -e
+# offline build of the whole framework: regenerate translated files, full .vo build of the Coq
+# development, extracted model runners.  A file that fails to build is reported but does not stop
+# the rest: every check rebuilds its own cone and reports a broken obligation itself.
 cd "$(dirname "$0")/.."
 [ -x tools/regen.sh ] && tools/regen.sh
-tools/build_coq.sh
-for f in coq/Run/Extract*.v; do id=$(basename "$f" .v | sed 's/Extract//' | tr A-Z a-z); tools/build_model.sh "$id"; done
+tools/build_coq.sh -k || echo "SETUP: some Coq files did not build (see above); the checks depending on them will report it"
+for f in coq/Run/Extract*.v; do
+  id=$(basename "$f" .v | sed 's/Extract//' | tr A-Z a-z)
+  tools/build_model.sh "$id" || echo "SETUP: model runner $id did not build"
+done
+exit 0
